@@ -27,15 +27,17 @@ Proof. exact next_field_tag. Qed.
    predicates that satisfy the reader contracts this multi-pass loop equals the single-pass
    parser that dispatches on the pending field (order-insensitive by construction): *)
 Theorem C02_loop_is_dispatch : forall (T dstate : Type) (pfv : dstate -> bool) (blen : dstate -> nat) (skip : dstate -> dstate)
-    (readers : list (reader T dstate)),
-  (forall r st, In r readers -> rmatch T dstate r st = true -> pfv st = true) ->
-  (forall r st t, In r readers -> rmatch T dstate r st = false -> rrun T dstate r st t = (st, t)) ->
-  (forall r st t, In r readers -> rmatch T dstate r st = true ->
+    (readers : list (reader T dstate)) (Inv : dstate -> Prop),
+  (forall r st t, In r readers -> Inv st -> Inv (fst (rrun T dstate r st t))) ->
+  (forall st, Inv st -> Inv (skip st)) ->
+  (forall r st, In r readers -> Inv st -> rmatch T dstate r st = true -> pfv st = true) ->
+  (forall r st t, In r readers -> Inv st -> rmatch T dstate r st = false -> rrun T dstate r st t = (st, t)) ->
+  (forall r st t, In r readers -> Inv st -> rmatch T dstate r st = true ->
      let '(st', _) := rrun T dstate r st t in (blen st' < blen st)%nat \/ (pfv st' = false /\ (blen st' <= blen st)%nat)) ->
-  (forall i j ri rj st, nth_error readers i = Some ri -> nth_error readers j = Some rj ->
+  (forall i j ri rj st, Inv st -> nth_error readers i = Some ri -> nth_error readers j = Some rj ->
      rmatch T dstate ri st = true -> rmatch T dstate rj st = true -> i = j) ->
-  (forall st, pfv st = true -> (blen (skip st) < blen st)%nat \/ pfv (skip st) = false) ->
-  forall st t n n', (blen st + 3 <= n)%nat -> (blen st + 2 <= n')%nat ->
+  (forall st, Inv st -> pfv st = true -> (blen (skip st) < blen st)%nat \/ pfv (skip st) = false) ->
+  forall st t n n', Inv st -> (blen st + 3 <= n)%nat -> (blen st + 2 <= n')%nat ->
   LoopEquiv.loop T dstate pfv blen skip readers n st t = loop1 T dstate pfv skip readers n' st t.
 Proof. exact loop_equiv. Qed.
 (* instance on emitted programs: the Decode of a message of singular scalar fields (all 15 kinds,
